@@ -18,6 +18,8 @@ for h in list(HARNESSES):
 # the wrappers' part: header rewritten after every write iff auto-update is on, frame count/dataend bookkeeping (C05 wrappers)
 HARNESSES += [h for h in _load("C05").HARNESSES if h.name.startswith("wrap.write") and ".ch2" in h.name]
 HARNESSES += _load("blk_common").sds_harnesses(("SEL_HEADER",))
+# the command layer: SFC_UPDATE_HEADER_NOW always asks the container for a full recalculation
+HARNESSES += [h for h in _load("C17").HARNESSES if h.name == "cmd.SFC_UPDATE_HEADER_NOW"]
 
 META = {"assumptions": ["crash image = memory-file content at the instant the update returns"],
         "outside": ["the audio prefix itself (C01 codec identity)", "block codecs", "OS-level write ordering"]}
